@@ -41,12 +41,19 @@
    element-by-element closure evaluation panics; error value = the collect rule's verdict on
    the element-by-element stream(s) - no `supported` hypothesis; map / map_mut / from_iter /
    from_iters::<2> / from_iters::<N>; C06_rejected_run lifts them to whole runs.
+   Wave 4: C06_derivative_queries_agree - the QUERY side of a derivative set (Derivatives::at /
+   Index / Vec::from / at_tensor_index / at_matrix_index / at_tensor / at_matrix =
+   ContainerViews.at_record / at_container_index / at_container): all forms agree in the input
+   container's own view order, and the whole-container answer for a container over any view is
+   the relabelling of the sources' answers by the view's position map.  The case language has an
+   optional list of containers (any source kind, any tape layout) the derivatives are queried
+   with respect to.
    Not in the model: Display impls; the record containers' own TensorRef / MatrixRef impls used
    as the SOURCE of a further adaptor (the views are built over copies of the elements);
    MatrixMask / MatrixMap (not MatrixMut: the assign forms do not exist for them);
    TensorRefMatrix (its dimension names are outside the model's name space). *)
 From Coq Require Import List ZArith Bool Arith.
-From EasyML Require Import Base.Sx Model.Num Model.Tape Model.Container Model.ContainerViews Proofs.TapeP Proofs.C06P Proofs.C06Q.
+From EasyML Require Import Base.Sx Model.Num Model.Tape Model.Container Model.ContainerViews Proofs.TapeP Proofs.C06P Proofs.C06Q Proofs.C06D.
 Import ListNotations.
 
 Theorem C06_elementwise_equiv :
@@ -270,6 +277,48 @@ Proof.
   do 6 eexists. vm_compute. repeat split; reflexivity.
 Qed.
 
+(* THE QUERY SIDE (wave 4).  A derivative set is read through `Derivatives::at(&record)` /
+   `Index<&Record>` / `Vec::from` (at_record: the vector at the record's tape position),
+   `at_tensor_index` / `at_matrix_index` (at_container_index: the element at a row-major position of
+   the input container, None outside) and `at_tensor` / `at_matrix` (at_container: all at once).
+   For EVERY derivative vector d and EVERY input container c (any source: c_data is the element
+   list in the container's own view order): the whole-container answer has one entry per
+   element; read at position k it IS the one-index answer; the one-index answer IS the
+   one-record answer for the record at that position; outside the container it is None.  And
+   for a container c over ANY view (OSelect f srcs, every position map f): the whole-container
+   answer for c is the relabelling, by the view's position map, of the whole-container answers for
+   the sources - element i of at_container d c is element j of at_container d (source k) where
+   (k, j) = nth i pos.  (A fast path that pours a slice of d in memory order into the view's
+   shape violates exactly this for a permuted view.) *)
+Theorem C06_derivative_queries_agree :
+  forall (R : Type) (ops : numops R) (d : list R),
+  (forall (c : cont R), length (at_container (nzero ops) d c) = length (c_data c)) /\
+  (forall (c : cont R) k, nth_error (at_container (nzero ops) d c) k = at_container_index (nzero ops) d c k) /\
+  (forall (c : cont R) k v i, nth_error (c_data c) k = Some (v, i) ->
+      at_container_index (nzero ops) d c k = Some (at_record (nzero ops) d i)) /\
+  (forall (c : cont R) k, length (c_data c) <= k -> at_container_index (nzero ops) d c k = None) /\
+  (forall t env f srcs t' (c : cont R),
+      cstep ops (t, env) (OSelect f srcs) = Some (Ok (t', [c])) ->
+      exists xs tensor sh pos,
+        sequence (map (fun k => nth_error env k) srcs) = Some xs /\
+        f (map (fun x => (c_tensor x, c_shape x)) xs) = Some (tensor, sh, pos) /\
+        length (at_container (nzero ops) d c) = length pos /\
+        forall i k j, nth_error pos i = Some (k, j) ->
+          exists x w, nth_error xs k = Some x /\
+                      nth_error (at_container (nzero ops) d x) j = Some w /\
+                      nth_error (at_container (nzero ops) d c) i = Some w).
+Proof. exact @derivative_queries_agree. Qed.
+
+(* non-vacuity: the transposed view of a 2 x 3 container of variables at tape positions 0..5; the
+   whole-container query of the view reads d at positions 0 3 1 4 2 5, not 0 1 2 3 4 5 *)
+Example C06_queries_nonvacuous :
+  let c := mkCont true [(1, 3); (0, 2)]
+             [(1%Z, 0); (4%Z, 3); (2%Z, 1); (5%Z, 4); (3%Z, 2); (6%Z, 5)] (Some 0) in
+  at_container 0%Z [10; 20; 30; 40; 50; 60]%Z c = [10; 40; 20; 50; 30; 60]%Z /\
+  at_container_index 0%Z [10; 20; 30; 40; 50; 60]%Z c 1 = Some 40%Z /\
+  at_container_index 0%Z [10; 20; 30; 40; 50; 60]%Z c 6 = None.
+Proof. repeat split. Qed.
+
 Print Assumptions C06_elementwise_equiv.
 Print Assumptions C06_constant_side_inert.
 Print Assumptions C06_view_is_relabelling.
@@ -278,3 +327,4 @@ Print Assumptions C06_rejected_streams.
 Print Assumptions C06_rejected_streams_from_iters2.
 Print Assumptions C06_rejected_streams_from_iters.
 Print Assumptions C06_rejected_run.
+Print Assumptions C06_derivative_queries_agree.
